@@ -1,7 +1,7 @@
 #!/bin/bash
 # usage: tools/run_all.sh [tier] [ids...]   runs the claimed checks sequentially, prints one line each
 TIER=${1:-quick}; shift
-cd /verif
+cd "$(dirname "$(readlink -f "$0")")/.."
 IDS="$@"
 if [ -z "$IDS" ]; then IDS=$(python3 -c "
 import json
